@@ -73,8 +73,12 @@ def run(tier, seed, workers=None):
              'for every job that pushes and every push of it, one re-run per '
              'third-party action {create a branch, push a commit to a source '
              'branch, force-push a source branch to its parent} placed '
-             'immediately before that push; distinct_nontrivial = deviation '
-             'runs',
+             'immediately before that push; plus two environment faults per '
+             'pushing job: (stale_cache) the clone cache is a mirror of the '
+             'pre-state, a third party creates a new destination branch and '
+             'the cache refresh of the job fails; (netfail) each command '
+             'that talks to the remote fails once; distinct_nontrivial = '
+             'deviation runs',
         assumptions=['the third party acts directly on the remote; one '
                      'action per job'])
     cr.coverage['evaluations'] = cr.coverage['transitions'] + \
